@@ -161,4 +161,22 @@ theorem C05_kernel_is_source (adminIPs : List String) (ip : String) (domain : By
     onSign adminIPs ip domain = Gen.onSignGen false adminIPs ip domain :=
   onSign_eq_gen adminIPs ip domain
 
+/-- **C05 (each signing rule is reachable through exactly one action — the dispatch is the source).** In the ruler's per-entry
+    path as it is in the source now (services/ruler/golang/runner.go, translated on every run: factx/dispatch.go) the generic
+    signing action reaches `OnSign` and nothing else, the proposal action `OnSignBeaconProposal`, the attestation action
+    `OnSignBeaconAttestation`; no two arms name one action; and no other action's arm calls a signing rule.  So a request that
+    enters through a generic endpoint is judged by the generic rule (which refuses the attester and proposer domain types:
+    `C05_generic_single` / `_multi`), whatever its data.  A verdict the rule leaves UNKNOWN, data of another type, a failing
+    metadata assembly and an action no arm names all end FAILED. -/
+theorem C05_dispatch_is_source :
+    Gen.dispatchTableGen.lookup opSign = some ("*rules.SignData", "OnSign") ∧
+    Gen.dispatchTableGen.lookup opPropose = some ("*rules.SignBeaconProposalData", "OnSignBeaconProposal") ∧
+    Gen.dispatchTableGen.lookup opAttest = some ("*rules.SignBeaconAttestationData", "OnSignBeaconAttestation") ∧
+    (Gen.dispatchTableGen.map (·.1)).Nodup ∧
+    (∀ e ∈ Gen.dispatchTableGen, e.1 ≠ opSign → e.1 ≠ opPropose → e.1 ≠ opAttest → e.2.2 ∉ signingRules) ∧
+    (∀ (k : Nat), k < Gen.dispatchTableGen.length → ∀ v : Verdict,
+      Gen.dispatchEntryGen false false (some k) true (verdictCode v) = verdictCode (if v = .unknown then .failed else v)) :=
+  ⟨dispatch_signing_actions.1, dispatch_signing_actions.2.1, dispatch_signing_actions.2.2.1, dispatch_signing_actions.2.2.2.1,
+   dispatch_signing_actions.2.2.2.2.2, fun k hk v => dispatchEntry_eq_model k hk v⟩
+
 end Dirk
